@@ -313,3 +313,60 @@ def scales_not_memoised(ctx, rule):
                        f"coherence_length can be assigned at any time; polygons can be moved in place) and nothing invalidates it",
                consequence="a penetration-depth sweep that sets device.layer.london_lambda and solves again weights the screening kernel with the first "
                            "run's Lambda: every step converges, but the stored potential is Lambda_new/Lambda_first times the Biot-Savart sum of the stored currents")
+
+
+def no_absolute_length_tolerance(ctx, rule, consequence):
+    """R08.10: the geometric data the solver constructor reads on the device (terminal_info, ..., closed under what they read on self) is
+    computed without an absolute tolerance in length units: every call of a Polygon membership method (`contains_points`,
+    `on_boundary`) in those members passes `radius` 0 - explicitly, or through a default of 0.  A non-zero radius is a pure number
+    compared with coordinates in `length_units`, so the same device stated in another length unit selects other sites."""
+    repo = ctx.repo
+    D = repo.cls("tdgl.device.device", "Device")
+    Pc = repo.cls("tdgl.device.polygon", "Polygon")
+    fi = repo.func(SOLVER, "TDGLSolver.__init__")
+    plain = {d.name: d for d in D.node.body if isinstance(d, ast.FunctionDef)}
+    used, todo = set(), []
+    for x in own_nodes(fi.node):
+        if isinstance(x, ast.Attribute) and norm(x.value) in ("device", "self.device") and x.attr in plain:
+            todo.append(x.attr)
+    while todo:
+        m = todo.pop()
+        if m in used:
+            continue
+        used.add(m)
+        for x in ast.walk(plain[m]):
+            if isinstance(x, ast.Attribute) and isinstance(x.value, ast.Name) and x.value.id == "self" and x.attr in plain:
+                todo.append(x.attr)
+    defaults = {}
+    for name, pm_ in Pc.methods.items():
+        a = pm_.node.args
+        names = [p.arg for p in a.args]
+        for p, dflt in zip(names[len(names) - len(a.defaults):], a.defaults):
+            if p == "radius":
+                defaults[name] = dflt.value if isinstance(dflt, ast.Constant) else None
+    if "contains_points" not in defaults or "on_boundary" not in defaults:
+        raise AnalysisError(f"Polygon membership methods with a `radius` parameter: {sorted(defaults)}")
+    sites = 0
+    for m in sorted(used):
+        f = D.methods.get(m)
+        for c in ast.walk(plain[m]):
+            if isinstance(c, ast.Call) and isinstance(c.func, ast.Attribute) and c.func.attr in defaults and not (isinstance(c.func.value, ast.Name) and c.func.value.id == "self" and c.func.attr not in Pc.methods):
+                # Device.contains_points forwards its own radius (default 0) to the polygons: a call on self is judged at its own call sites
+                kw = next((k.value for k in c.keywords if k.arg == "radius"), None)
+                if kw is None:
+                    val = defaults[c.func.attr] if not (isinstance(c.func.value, ast.Name) and c.func.value.id == "self") else 0
+                elif isinstance(kw, ast.Constant):
+                    val = kw.value
+                elif isinstance(kw, ast.UnaryOp) and isinstance(kw.operand, ast.Constant):
+                    val = kw.operand.value
+                elif isinstance(kw, (ast.Name, ast.UnaryOp)) and "radius" in norm(kw):
+                    continue            # forwards the caller's radius
+                else:
+                    val = None
+                sites += 1
+                ctx.ob(rule, f"Device.{m}: `{norm(c)[:60]}` uses no absolute length tolerance", val == 0, detail={"radius": repr(val)},
+                       where=f.fq if f else D.fq, loc=loc(f, c) if f else "", construct=f"membership call {norm(c.func)} in Device.{m}",
+                       message=f"Device.{m} (read by the solver) calls `{norm(c)[:70]}` with radius {val!r}: a pure number used as a length in `length_units`",
+                       consequence=consequence)
+    if sites < 2:
+        raise AnalysisError(f"only {sites} polygon membership calls found in the Device members the solver reads ({sorted(used)})")
